@@ -6,6 +6,7 @@ real executors are created with a single user reference, given pending work, and
 interpreter-exit hook at arbitrary points of the worker loop under dsched; observed: thread termination, completion of the
 pending futures, and weakref liveness of callables, arguments, results and futures after an explicit gc.collect()."""
 import gc
+import os
 import random
 import weakref
 
@@ -49,6 +50,10 @@ def gen_scenarios(seed, tier):
                  when=rng.choice([0, 0, 0.5, 1.0, 1.0, 2.0, 2.5, 5.0]), keep=rng.random() < 0.6, seed=rng.randrange(1 << 30),
                  tmo=rng.choice([50.0, 1.0, 1.0, 2.0]), cancel_one=rng.random() < 0.5)
         d.update(schedule_modes(rng))
+        if i % 10 == 9:
+            # the retry executor asleep in a long back-off for a failed attempt: cancel-and-drop, or drop everything, in the middle of it
+            d.update(kind="retry", trigger=rng.choice(["backoff-cancel", "backoff-drop"]), nsub=rng.choice([1, 2]),
+                     when=rng.choice([0.5, 1.0, 2.0, 5.0]), durs=[rng.choice([0, 0.25]) for _ in range(3)])
         yield d
 
 
@@ -67,6 +72,8 @@ def make(kind, pool, w):
     from more_executors.poll import PollExecutor
     from more_executors.throttle import ThrottleExecutor
     from more_executors.timeout import TimeoutExecutor
+    if kind == "retry-backoff":
+        return RetryExecutor(pool, max_attempts=3, sleep=30.0, max_sleep=30.0, name="LC")
     if kind == "retry":
         return RetryExecutor(pool, max_attempts=2, sleep=1.0, name="LC")
     if kind == "poll":
@@ -87,7 +94,8 @@ def run_one(desc):
         from more_executors._impl import event as evmod
         pool = SimPool(2, retain=False)
         TMO[0] = desc.get("tmo", 50.0)
-        ex = make(desc["kind"], pool, w)
+        backoff = desc["trigger"].startswith("backoff")
+        ex = make("retry-backoff" if backoff else desc["kind"], pool, w)
         st["wref"] = weakref.ref(ex)
         worker = None
         for e in s.log:
@@ -100,8 +108,14 @@ def run_one(desc):
                 self.k, self.d = k, d
 
             def __call__(self, arg):
+                self.calls = getattr(self, "calls", 0) + 1
+                st["calls"] = st.get("calls", 0) + 1
                 if self.d:
                     s.sleep(self.d)
+                if backoff and self.calls == 1:
+                    # (a user-defined class: instances of built-in exception classes cannot be weakly referenced, so the scheduler's
+                    # object-naming table would keep them - and through their traceback this frame's callable and argument - alive)
+                    raise EXC["E0"]("first attempt fails")
                 return Blob(("res", self.k))
         futs = []
         refs = {}
@@ -123,6 +137,59 @@ def run_one(desc):
         if desc["when"]:
             s.sleep(desc["when"])
         trig = desc["trigger"]
+        if backoff:
+            # the first attempts have failed (durations <= 0.25 s) and the jobs wait for their retry, due at about t = 30 s
+            calls_before = st.get("calls", 0)
+            if trig == "backoff-cancel":
+                st["cancel_results"] = [f.cancel() for f in futs] if futs else None
+                futs = None
+                results.clear()
+                gc.collect()
+                st["retained"] = []
+                for k, (rfn, rarg, rf) in refs.items():
+                    for nm, r in (("callable", rfn), ("argument", rarg), ("future", rf)):
+                        if r() is not None:
+                            st["retained"].append(nm)
+                st["kept"] = desc["keep"]
+                if os.environ.get("VERIF_DEBUG_REFS") and st["retained"]:
+                    import types
+                    for k, (rfn, rarg, rf) in refs.items():
+                        o = rfn()
+                        seen = set()
+                        frontier = [o]
+                        for depth in range(8):
+                            nxt = []
+                            for x in frontier:
+                                for r in gc.get_referrers(x):
+                                    if id(r) in seen or r is frontier or r is nxt:
+                                        continue
+                                    seen.add(id(r))
+                                    if isinstance(r, (types.FrameType, types.TracebackType, list, tuple, dict)) or isinstance(r, BaseException):
+                                        nxt.append(r)
+                                        if isinstance(r, (BaseException, dict)):
+                                            print(depth, "via", type(r).__name__, str(r)[:150])
+                                    else:
+                                        print(depth, "HOLDER", type(r), str(r)[:200])
+                            frontier = nxt
+                        break
+                s.sleep(5.0)
+                ex.shutdown(wait=True)
+                pool.shutdown(True)
+                st["completed"] = True
+                return
+            futs = None
+            results.clear()
+            del ex
+            gc.collect()
+            s.sleep(5.0)        # well inside the back-off
+            gc.collect()
+            st["exited"] = any(e[0] == worker and e[1] in ("texit", "tdied") for e in s.log)
+            st["collected"] = st["wref"]() is None
+            s.sleep(60.0)
+            st["calls_after"] = st.get("calls", 0) - calls_before
+            st["completed"] = True
+            pool.shutdown(True)
+            return
         if trig == "release" and desc.get("cancel_one") and futs:
             # a cancel while the attempt may be in flight: whatever it returns, nothing of that submission may be retained
             futs[-1].cancel()
@@ -177,7 +244,19 @@ def run_one(desc):
             gc.enable()
     hits = []
     kind, trig = desc["kind"], desc["trigger"]
-    if st.get("completed"):
+    if st.get("completed") and trig == "backoff-cancel":
+        if st.get("kept") and st.get("cancel_results") and all(r is True for r in st["cancel_results"]) and st["retained"]:
+            hits.append(hit("C12/retained-during-backoff:%s" % "+".join(sorted(set(st["retained"]))),
+                            "retry executor alive and asleep in a back-off: after cancel() = True of the queued futures and the user "
+                            "dropping them, gc.collect() left %r reachable" % sorted(set(st["retained"]))))
+    elif st.get("completed") and trig == "backoff-drop":
+        if not st["exited"] or not st["collected"]:
+            hits.append(hit("C12/worker-alive:retry:backoff-drop", "5 virtual seconds after the user dropped the retry executor and its futures "
+                            "in the middle of a 30 s back-off: worker exited=%s, executor collected=%s" % (st["exited"], st["collected"])))
+        if st.get("calls_after"):
+            hits.append(hit("C12/ran-after-drop:retry", "the callable was invoked %d more time(s) after executor and futures had been dropped "
+                            "(nobody can observe the result)" % st["calls_after"]))
+    elif st.get("completed"):
         if trig == "release":
             if st["retained"]:
                 hits.append(hit("C12/retained:%s:%s" % (kind, "+".join(sorted(set(st["retained"])))),
